@@ -53,8 +53,9 @@ Judge(e) ==
                     \* the query that was outstanding when that upstream reply arrived, and when its client had the answer
                     owner == Max({j \in sameKeyQ : j < u})
                     rFirst == IF CrOf(owner) = {} THEN up.t ELSE Rec[Min(CrOf(owner))].t
-                    ageLo == IF c.t > rFirst THEN c.t - rFirst ELSE 0
-                    ageHi == e.t - up.t
+                    \* event times are truncated to whole milliseconds: widen both bounds by 2 ms
+                    ageLo == IF c.t > rFirst + 2 THEN c.t - rFirst - 2 ELSE 0
+                    ageHi == e.t - up.t + 2
                     m == MinTtl(up)
                     secs == <<<<e.an, up.an>>, <<e.ns, up.ns>>, <<e.ar, up.ar>>>>
                     comparable == \A s \in 1..3 : Len(secs[s][1]) = Len(secs[s][2])
